@@ -39,7 +39,33 @@ SHIMS = CORE_SHIM_MODULES + [
     'cirq.sim.density_matrix_utils',
     'cirq.value.classical_data',
     'cirq.linalg.predicates',
+    'cirq.qis.clifford_tableau',
+    'cirq.ops.pauli_measurement_gate',
+    'cirq.ops.dense_pauli_string',
+    'cirq.ops.pauli_string',
 ]
+
+
+def worker_setup():
+    """np.clip(probs, 0, None) in cirq.sim.simulation_utils: for symbolic probabilities the clip is replaced by
+    the ASSUMPTION probs >= 0 (true for |amplitude|^2 sums and for density matrices in the documented domain)"""
+    import importlib
+
+    from symx import ctx as C
+    from symx import proxy
+
+    class ClipNp(proxy.NpProxy):
+        def clip(self, a, a_min=None, a_max=None, **k):
+            cx = C._CUR[0]
+            if cx is not None and proxy.is_sym(a) and a_min == 0 and a_max is None:
+                for e in np.asarray(a, dtype=object).reshape(-1):
+                    if hasattr(e, 't') and not e.is_const():
+                        cx.assume(e >= 0, check=False)
+                return a
+            return np.clip(a, a_min, a_max, **k)
+
+    importlib.import_module('cirq.sim.simulation_utils').__dict__['np'] = ClipNp()
+    return ['cirq.sim.simulation_utils.np.clip(probs, 0, None) on symbolic probabilities: identity + assumption probs >= 0']
 
 
 def make_prng(cx):
@@ -263,6 +289,53 @@ def obligations(tier):
 
     obs.append(Obligation('act_on_measure', act_body, twin=lambda cx: act_body(cx, wrong=True), expected=(ZeroDivisionError,), opts={'weight': 8}, desc='cirq.act_on(MeasurementGate(invert_mask, confusion_map)) on state-vector and density-matrix simulation states with arbitrary symbolic amplitudes and symbolic confusion probabilities: Born probabilities, confusion row, recorded bits'))
 
+    # ---- C2: Pauli-observable measurement: probabilities, record and post-measurement state ---------------------
+    PSTR = [('XX', [1, 1]), ('ZZ', [3, 3]), ('XY', [1, 2]), ('YZ', [2, 3]), ('ZX', [3, 1]), ('X', [1]), ('Y', [2]), ('-XZ', [1, 3]), ('-Y', [2])]
+
+    def pauli_meas_body(cx, wrong=False):
+        from symx.snum import sqrt
+
+        n = 2
+        q = cirq.LineQubit.range(n)
+        name, letters = PSTR[cx.choose('observable', len(PSTR))]
+        sign = -1 if name.startswith('-') else 1
+        k = len(letters)
+        places = list(itertools.permutations(range(n), k))
+        pl = places[cx.choose('place', len(places))]
+        PG = {1: cirq.X, 2: cirq.Y, 3: cirq.Z}
+        PM = {1: D.PAULI['X'], 2: D.PAULI['Y'], 3: D.PAULI['Z']}
+        obs_ = cirq.DensePauliString([PG[l] for l in letters], coefficient=sign)
+        gate = cirq.PauliMeasurementGate(obs_, key='m')
+        psi = EM.sym_tensor(cx, (2,) * n, 'A')
+        prng = make_prng(cx)
+        st = cirq.StateVectorSimulationState(initial_state=psi.copy(), qubits=q, prng=prng, dtype=np.complex128)
+        cirq.act_on(gate.on(*[q[i] for i in pl]), st)
+        rec = [int(b) for b in st.log_of_measurement_results['m']]
+        out = st.target_tensor
+        # reference: P = sign * tensor of Paulis on `pl`; record r means eigenvalue (-1)^r
+        Pm = np.eye(1, dtype=complex)
+        for l in letters:
+            Pm = np.kron(Pm, PM[l])
+        Pm = sign * Pm
+        Ppsi = EM.apply_matrix_to_axes(Pm, psi, list(pl))
+        r = rec[0]
+        proj = (psi + (1 if r == 0 else -1) * Ppsi) * 0.5
+        w = total_weight(proj)
+        tot = total_weight(psi)
+        pvec, kdraw = prng.log[0]
+        cx.check(len(prng.log) == 1 and len(rec) == 1, label='pauli measurement: one draw, one recorded bit')
+        # the probability requested for the drawn outcome is the Born weight of the recorded eigenvalue
+        cx.close(pvec[kdraw], (w / tot) * (0.5 if wrong else 1.0), label=f'PauliMeasurementGate[{name}]: probability of the drawn outcome == <psi|(1 +- P)/2|psi>')
+        nrm = sqrt(w / tot) if cx.mode != 'concrete' else np.sqrt(w / tot)
+        cx.close(np.asarray(out, dtype=object).reshape(-1) * nrm, np.asarray(proj, dtype=object).reshape(-1), label=f'PauliMeasurementGate[{name}]: post state * sqrt(p) == (1 +- P)/2 psi')
+
+    obs.append(Obligation('pauli_measurement', pauli_meas_body, twin=lambda cx: pauli_meas_body(cx, wrong=True), expected=(ZeroDivisionError,), opts={'weight': 8, 'decide_timeout_ms': 300}, desc='cirq.act_on(PauliMeasurementGate(observable)) for 9 signed Pauli observables on 1-2 qubits (all placements) on an ARBITRARY symbolic 2-qubit state: probability of the drawn outcome == Born weight of the recorded eigenvalue, post-measurement state == projection onto that eigenspace (so a repeated measurement repeats the outcome)'))
+
+    # the tableau measurement law (Clifford simulators) is decided by C13's obligation; it is part of this property too
+    from checks import C13 as _C13
+
+    obs += [o for o in _C13.obligations(tier) if o.name.startswith('tableau.measure')]
+
     # ---- D: Simulator.run / DensityMatrixSimulator.run: joint distribution of all records --------------------
     def programs():
         """(name, builder(q, t, u) -> list of spec items); spec: ('U', doc_matrix, positions, cirq_op) |
@@ -350,6 +423,8 @@ def main(tier, seed=0, replay=None, only=None, procs=None):
         'repetitions': '1..2',
         'amplitude_box': [-1, 1],
         'rotation_box': [-4, 4],
-        'outside': ['programs that measure, apply H + CNOT and measure two qubits again (mid_then_gate: the NRA equality of the probability products does not finish; left out, not claimed)', 'statistics of numpy generator itself', 'Clifford/stabilizer simulators (C13)', 'qudit measurements', 'PauliMeasurementGate', 'complex64', 'more than 2 repetitions', 'sample_density_matrix'],
+        'pauli_measurement': '9 signed observables on <=2 qubits, arbitrary symbolic state',
+        'clifford': 'CliffordTableau._measure from an arbitrary valid tableau (obligation shared with C13)',
+        'outside': ['programs that measure, apply H + CNOT and measure two qubits again (mid_then_gate: the NRA equality of the probability products does not finish; left out, not claimed)', 'statistics of numpy generator itself', 'CH-form measurement', 'qudit measurements', 'complex64', 'more than 2 repetitions', 'sample_density_matrix'],
     }
     return run_check(PID, tier, 'checks.C02', SHIMS, LEVEL, BASE_ASSUMPTIONS, bounds, seed=seed, replay=replay, only=only, procs=procs)
